@@ -33,6 +33,7 @@ FAMILY = [
  ('loop_key',   '<loop value="v">{var:v};</loop>',            5, 'L("&lt;k&gt;;j;")'),
  ('loop_if',    '<loop set="a" value="v"><if case="1">{var:v}</if></loop>', 1, 'E(0); E(1)'),
 ]
+HEAVY = ('loop_array', 'loop_if', 'loop_obj', 'loop_set', 'inline_if', 'svar', 'index_path', 'array_index')
 def B(n):
     return {'Next': n + 2, 'h_render|build|leaves_intact|L|E|R': n + 4, 'Copy': 40, 'IsEqual': 10, 'Dispose': 4, 'parse|parse.*|checkLoopVariable|getOperation|isExpression|parseExpressions|parseValue': n + 2,
             'vf_mem.*': 200, 'SetToZero': 24, 'render.*|getValue|evaluate.*|GetExpressionValue|isEqual|Render': 6, 'Write|write': n + 2, 'EscapeHTMLSpecialChars': 4, 'Hash': 3, 'find': 4,
@@ -41,8 +42,10 @@ def queries(tier):
     qs = []
     for name, tpl, val, exp in FAMILY:
         n = len(tpl)
-        qs.append(Query('render/%s' % name, 'C02_render.cpp', 'h_render', {'TPL': json.dumps(tpl), 'VAL': val, 'EXPECT': exp}, bounds=B(n), default_unwind=5, default_rec=3,
-                        rec_bounds={'~Value': 2, 'render|evaluate|parseExpressions': 4}, timeout=600, mem_gb=14))
+        d = {'TPL': json.dumps(tpl), 'VAL': val, 'EXPECT': exp}
+        if tier == 'quick' and name in HEAVY: d['LEAFN'] = 1      # one-unit leaves for the loop templates in the per-change tier (two units: thorough)
+        qs.append(Query('render/%s' % name, 'C02_render.cpp', 'h_render', d, bounds=B(n), default_unwind=5, default_rec=3,
+                        rec_bounds={'~Value': 2, 'render|evaluate|parseExpressions': 4}, timeout=900, mem_gb=14))
     if tier != 'quick':
         for name, tpl, val, exp in FAMILY:
             for cut in range(0, len(tpl)):
